@@ -216,7 +216,7 @@ theorem shipped_tokens_are_source_slices (E : Env) (src : List Nat) (hfin : (tok
 /-! ### C08: what the continuation branch skips (hypothesis `EndGap`) -/
 
 theorem end_branch_only_continuation_chars :
-    (XV.Gen.pseudoToken.filter (·.1 = "End")).all (fun b => onlyChars gapChar b.2) = true := by decide +kernel
+    (XV.Gen.pseudoToken.filter (·.1 = "End")).all (fun b => onlyChars contChar b.2) = true := by decide +kernel
 
 theorem gen_end_gap : EndGap XV.Driver.genPats := by
   intro b hb hE
